@@ -156,7 +156,11 @@ type encInfo struct {
 func (info Table) getEncInfo() *encInfo {
 	minGid := glyph.ID(0xFFFF)
 	maxGid := glyph.ID(0)
-	for key := range info {
+	for key, class := range info {
+		if class == 0 {
+			// explicit entries for the default class are not stored
+			continue
+		}
 		if key < minGid {
 			minGid = key
 		}
@@ -205,9 +209,19 @@ func (info Table) getEncInfo() *encInfo {
 	}
 }
 
+// isDefault returns true if all glyphs are in class 0.
+func (info Table) isDefault() bool {
+	for _, class := range info {
+		if class != 0 {
+			return false
+		}
+	}
+	return true
+}
+
 // AppendLen returns the size of the binary table representation.
 func (info Table) AppendLen() int {
-	if len(info) == 0 {
+	if info.isDefault() {
 		return 4
 	}
 	encInfo := info.getEncInfo()
@@ -219,7 +233,7 @@ func (info Table) AppendLen() int {
 
 // Append appends the binary table representation to the given buffer.
 func (info Table) Append(buf []byte) []byte {
-	if len(info) == 0 {
+	if info.isDefault() {
 		return append(buf, 0, 2, 0, 0)
 	}
 
